@@ -145,10 +145,52 @@ fn check_seq(prop: &'static str, tier: Tier) -> CheckOutcome {
             });
         }
     }
+    // cross-alphabet pass: the alphabets of the other sequential properties, this property's clauses
+    let mut cross: Vec<Value> = vec![];
+    if prop != "C19" {
+        for cfg in props::foreign_cfgs(prop) {
+            let rep = seq::explore_seq(&cfg, nthreads(), 0);
+            if let Some(e) = &rep.machinery_error {
+                mach = Some(format!("{}: {}", cfg.name, e));
+            }
+            states += rep.states;
+            transitions += rep.transitions;
+            executions += rep.executions;
+            cross.push(json!({
+                "config": cfg.name,
+                "alphabet_size": cfg.alphabet.len(),
+                "depth_completed": rep.depth_reached,
+                "capped": rep.capped,
+                "states": rep.states,
+                "transitions": rep.transitions,
+                "owned_clause_hits": rep.owned_clause_hits,
+                "foreign_discrepancies": rep.foreign,
+            }));
+            for f in rep.found {
+                if violations.iter().any(|v| v.signature == f.signature) {
+                    continue;
+                }
+                violations.push(Violation {
+                    signature: f.signature.clone(),
+                    what: format!("{}: {}  after [{}] (alphabet of {})", f.clause, f.detail, f.hist_text.join(" ; "), cfg.name),
+                    replay: json!({
+                        "engine": "seq",
+                        "tier": "quick",
+                        "config": f.cfg_name,
+                        "history": f.hist.iter().map(|e| json!({"cmd": e.cmd, "choices": e.choices})).collect::<Vec<_>>(),
+                        "history_text": f.hist_text,
+                        "clause": f.clause,
+                        "detail": f.detail,
+                    }),
+                });
+            }
+        }
+    }
     let coverage = json!({
         "states": states,
         "transitions": transitions,
         "traces_validated_against_impl": executions,
+        "cross_alphabet_pass": cross,
         "histories_replayed_through_real_tcp_server": socket_validated,
         "exact_vs_normalised_fingerprint_crosscheck": crosscheck,
         "samples": samples,
@@ -192,7 +234,12 @@ fn replay(path: &str) -> i32 {
         Some("seq") => {
             let prop = v["property"].as_str().unwrap_or("");
             let tier = if v["tier"].as_str() == Some("thorough") { Tier::Thorough } else { Tier::Quick };
-            let cfgs = props::seq_cfgs(prop, tier);
+            let mut cfgs = props::seq_cfgs(prop, tier);
+            if v["config"].as_str().map(|c| c.contains('@')).unwrap_or(false) {
+                if let Some(p) = props::SEQ_PROPS.iter().find(|p| **p == prop) {
+                    cfgs = props::foreign_cfgs(p);
+                }
+            }
             let cfg = match cfgs.iter().find(|c| Some(c.name.as_str()) == v["config"].as_str()) {
                 Some(c) => c,
                 None => {
